@@ -299,6 +299,7 @@ def generate() -> str:
 
 
 EXTRA_SECTIONS: list = []
+from extract_crash import crash_facts; EXTRA_SECTIONS.append(crash_facts)  # C05 (EngineCrash.lean)
 
 
 def main(write: bool = True) -> int:
